@@ -421,22 +421,62 @@ def write_grid(ctx: Ctx) -> None:
     ctx.need(len(loops) == 1, "per-output loop of the primitive not found")
     L = loops[0]
 
-    def grid_def(name: str, at: int):
-        """the normalize_chunks(...) definition a name goes back to inside the loop"""
-        for s in fl.rdefs(name, at):
-            v = s.value
-            if isinstance(v, ast.Call) and f"{A.UTILS}.normalize_chunks" in repo.callee_quals(v, g):
-                return s
-            if isinstance(v, ast.Call) and f"{A.UTILS}.to_chunksize" in repo.callee_quals(v, g) and v.args and isinstance(v.args[0], ast.Name):
-                return grid_def(v.args[0].id, s.node)
+    def is_norm(v) -> bool:
+        return isinstance(v, ast.Call) and f"{A.UTILS}.normalize_chunks" in repo.callee_quals(v, g)
+
+    def grids_list(e: ast.AST, at: int):
+        """`e` names a list holding one normalised grid per output, built up front:
+        [normalize_chunks(chunkss[i], …) for i in range(len(<outputs>))] → its definition site"""
+        if isinstance(e, ast.Name):
+            for s in fl.rdefs(e.id, at):
+                v = s.value
+                if isinstance(v, ast.ListComp) and is_norm(v.elt) and len(v.generators) == 1 and not v.generators[0].ifs:
+                    return s
+        return None
+
+    def grid_of_this_output(e: ast.AST, at: int) -> bool | None:
+        """`e` is the normalised grid of the output the per-output loop is at: defined by
+        normalize_chunks(...) inside the loop, or the loop index's element of the up-front
+        list.  None: not recognisable."""
+        if isinstance(e, ast.Name):
+            ds = fl.rdefs(e.id, at)
+            norm = [s for s in ds if is_norm(s.value)]
+            if norm:
+                return all(cfg.in_loop(s.node, L.id) for s in norm) and len(norm) == len(ds)
+            return None
+        if isinstance(e, ast.Subscript) and grids_list(e.value, at) is not None:
+            idx = e.slice
+            if isinstance(idx, ast.Name):
+                ids = fl.rdefs(idx.id, at)
+                return bool(ids) and all(x.kind == "for" and x.node == L.id for x in ids)
+            return False
+        return None
+
+    def chunksize_of_this_output(a: ast.AST | None, at: int) -> bool | None:
+        """`a` is to_chunksize(<grid of this output>), directly or through a local"""
+        if isinstance(a, ast.Name):
+            ds = fl.rdefs(a.id, at)
+            vs = [s for s in ds if isinstance(s.value, ast.Call) and f"{A.UTILS}.to_chunksize" in repo.callee_quals(s.value, g) and s.value.args]
+            if not vs or len(vs) != len(ds):
+                return None if not vs else False
+            rs = [grid_of_this_output(s.value.args[0], s.node) for s in vs]
+            if any(r is None for r in rs):
+                return None
+            return all(rs) and all(cfg.in_loop(s.node, L.id) for s in vs)
+        if isinstance(a, ast.Call) and f"{A.UTILS}.to_chunksize" in repo.callee_quals(a, g) and a.args:
+            return grid_of_this_output(a.args[0], at)
         return None
 
     proxies = [c for c in repo.calls_to(g, f"{A.PTYPES}.CubedArrayProxy") if cfg.in_loop(cfg.node_of(c), L.id)]
     ctx.need(proxies, "write proxy construction not found")
     for c in proxies:
         a = c.args[1] if len(c.args) > 1 else None
-        gd = grid_def(a.id, cfg.node_of(c)) if isinstance(a, ast.Name) else None
-        ok = gd is not None and cfg.in_loop(gd.node, L.id)
+        r_ = chunksize_of_this_output(a, cfg.node_of(c))
+        # (an expression that is recognisably something else — another variable, a parameter,
+        # an `or` with one — is judged; one the rule cannot read is not)
+        readable = r_ is not None or not isinstance(a, (ast.Subscript, ast.Call, ast.Attribute))
+        ctx.need(readable, f"write-proxy chunks `{unparse(a, 30)}` not recognised")
+        ok = bool(r_)
         ctx.ob(g, c, ok, "write-proxy chunks = chunk size of this output's normalised grid" + ("" if ok else f" — found `{unparse(a, 30)}`"), sel="grid:proxy")
     lz = [c for c in repo.calls_to(g, f"{A.ST_ZARR}.lazy_zarr_array") if cfg.in_loop(cfg.node_of(c), L.id)]
     for c in lz:
@@ -444,24 +484,31 @@ def write_grid(ctx: Ctx) -> None:
         ok = False
         cands = ch.values if isinstance(ch, ast.BoolOp) and isinstance(ch.op, ast.Or) else [ch]
         last = cands[-1]
-        if isinstance(last, ast.Name):
-            gd = grid_def(last.id, cfg.node_of(c))
-            ok = gd is not None and cfg.in_loop(gd.node, L.id)
-            if len(cands) == 2:
-                ok = ok and isinstance(cands[0], ast.Name) and cands[0].id == "target_chunks_"
+        r_ = chunksize_of_this_output(last, cfg.node_of(c))
+        ctx.need(r_ is not None or not isinstance(last, (ast.Subscript, ast.Call, ast.Attribute)), f"storage chunks `{unparse(last, 30)}` not recognised")
+        ok = bool(r_)
+        if len(cands) == 2:
+            ok = ok and isinstance(cands[0], ast.Name) and cands[0].id == "target_chunks_"
         ctx.ob(g, c, ok, "storage chunks = explicit rechunk target chunks or this output's grid chunk size", sel="grid:storage")
     cks = repo.calls_to(g, f"{A.PBW}.ChunkKeys")
     for c in cks:
         a = c.args[0] if c.args else None
-        gd = None
+        at_ = cfg.node_of(c)
+        ok = None
         if isinstance(a, ast.Name):
-            for s in fl.rdefs(a.id, cfg.node_of(c)):
-                if isinstance(s.value, ast.Call) and f"{A.UTILS}.normalize_chunks" in repo.callee_quals(s.value, g):
-                    gd = s
-        ok = gd is not None and cfg.in_loop(gd.node, L.id)
-        ctx.ob(g, c, ok, "tasks are enumerated over the same normalised grid", sel="grid:tasks")
+            ds = [s for s in fl.rdefs(a.id, at_)]
+            if ds and all(is_norm(s.value) for s in ds):
+                ok = all(cfg.in_loop(s.node, L.id) for s in ds)
+        elif isinstance(a, ast.Subscript) and grids_list(a.value, at_) is not None:
+            # any output's grid: all outputs have the same block counts (guard below)
+            ok = isinstance(a.slice, ast.Constant) and isinstance(a.slice.value, int)
+        ctx.need(ok is not None or not isinstance(a, (ast.Subscript, ast.Call, ast.Attribute)), f"task grid `{unparse(a, 30)}` not recognised")
+        ctx.ob(g, c, bool(ok), "tasks are enumerated over the same normalised grid", sel="grid:tasks")
     # the grid is normalize_chunks(chunkss[i], shape=shapes[i], dtype=dtypes[i]) with one index
     norm = [c for c in repo.calls_to(g, f"{A.UTILS}.normalize_chunks") if cfg.in_loop(cfg.node_of(c), L.id)]
+    if not norm:
+        # normalised up front, one grid per output
+        norm = [c for c in repo.calls_to(g, f"{A.UTILS}.normalize_chunks") if any(isinstance(x, ast.ListComp) and x.elt is c for x in g.own_nodes())]
     ok = len(norm) == 1
     if ok:
         c = norm[0]
@@ -469,10 +516,14 @@ def write_grid(ctx: Ctx) -> None:
         names = {unparse(x.value) for x in ast.walk(c) if isinstance(x, ast.Subscript)}
         ok = len(idx) == 1 and names == {"chunkss", "shapes", "dtypes"}
     ctx.ob(g, norm[0] if norm else None, ok, "the grid of output i is normalize_chunks(chunkss[i], shapes[i], dtypes[i])", sel="grid:normalised")
-    rs = [n for n in cfg.stmts(ast.Raise) if cfg.in_loop(n.id, L.id)]
+    # (in the per-output loop, or — with the grids normalised up front — before it)
+    rs = [n for n in cfg.stmts(ast.Raise) if cfg.in_loop(n.id, L.id) or not cfg.can_reach(L.id, n.id)]
     ok = False
     for r in rs:
-        for t, pol in facts_at(cfg, r.id):
+        facts_ = list(facts_at(cfg, r.id))
+        # any(nb(x) != nb0 for x in …) true  ≡  some output differs
+        facts_ += [(t.args[0].elt, True) for t, pol in facts_ if pol and isinstance(t, ast.Call) and isinstance(t.func, ast.Name) and t.func.id == "any" and t.args and isinstance(t.args[0], (ast.GeneratorExp, ast.ListComp))]
+        for t, pol in facts_:
             if isinstance(t, ast.Compare) and isinstance(t.ops[0], (ast.NotEq, ast.Eq)) and (isinstance(t.ops[0], ast.NotEq) == pol):
                 # both sides are block-count tuples: variables whose definitions are
                 # compute_numblocks(...) calls (or the initial None)
